@@ -186,6 +186,35 @@ def main():
             cases.append("(%s, %s, %s, %s, %s, %s)" % (coq_bool(kind == "aio"), coq_str(name), coq_str(ename), coq_str("local"), res(oc), res(os_)))
             descs.append({"front_end": kind, "name": name, "execution_name": ename, "create": oc, "start": os_})
         api.close()
+    # ------------------------------------------------------------------ G3b: the identifiers an execution carries from StartExecution to its last notification
+    # (machines in another region than the instance's own, names containing "execution" / "stateMachine", STANDARD and EXPRESS)
+    import sim
+    ident = 0
+    for region in ("local", "eu-west-2"):
+        for mname in ("plain", "nightly-execution-report", "executions", "stateMachine-x", "execution"):
+            for mtype in ("STANDARD", "EXPRESS"):
+                sm = "arn:aws:states:%s:0123456789:stateMachine:%s" % (region, mname)
+                want_x = "arn:aws:states:%s:0123456789:execution:%s:run1" % (region, mname)
+                w = sim.World(tmpd)
+                w.register(sm, {"StartAt": "P", "States": {"P": {"Type": "Pass", "Result": {"out": 1}, "End": True}}}, mtype=mtype)
+                inst = w.instances["i1"]
+                api = impl.Api(inst.engine, inst.dispatcher, inst.config, kind="aio")
+                st, body = api.post("StartExecution", {"stateMachineArn": sm, "name": "run1", "input": "{}"})
+                api.close()
+                d = {"state_machine": sm, "type": mtype, "StartExecution": [st, body]}
+                ident += 1
+                if st != 200 or body.get("executionArn") != want_x:
+                    ck.violation("StartExecution did not return the execution ARN derived from the state machine ARN it was given (%s expected): %s" % (want_x, json.dumps(d)[:600]), {"group": "identifiers", "case": d})
+                    continue
+                w.run(max_steps=200)
+                notes = [t[3] for t in w.trace if t[0] == "broadcast"]
+                d["notifications"] = [(n["detail"].get("status"), n["detail"].get("executionArn"), n["detail"].get("stateMachineArn")) for n in notes]
+                subjects = [t[2] for t in w.trace if t[0] == "broadcast"]
+                d["subjects"] = subjects
+                if (len(notes) < 2 or any(n["detail"].get("executionArn") != want_x or n["detail"].get("stateMachineArn") != sm for n in notes)
+                        or any(not str(sj).startswith(sm + ".") for sj in subjects)):
+                    ck.violation("the notifications of an execution do not all carry the execution ARN and state machine ARN it was started with: %s" % json.dumps(d)[:900], {"group": "identifiers", "case": d})
+    ck.add_group("identifiers_end_to_end", ident, ident, [])
     import shutil
     shutil.rmtree(tmpd, ignore_errors=True)
     funcs = (["c17_api_model", "c17_api_sites_oracle"] if model_ok else []) + ["c17_api_oracle"]
